@@ -12,7 +12,7 @@ run() { # id engines expected
   local st=OK; [ "$rc" != "$want" ] && st=UNEXPECTED
   echo "$st $id engines=$eng exit=$rc expected=$want | $first" | tee -a "$OUT"
 }
-for i in 1 2 3 4 5 6 7 9 10 11 13 16 17; do run agent-$i N 1; done
+for i in 1 2 3 4 5 6 7 9 10 11 13 16 17 18 19 20; do run agent-$i N 1; done
 run own-deadlock-lock-order N 1
 for c in own-control-lazylock own-control-global-mutex control-c1 control-c2 control-c3; do run $c T,N 0; done
 for i in 3 8 12 15; do run agent-$i M 1; done
@@ -20,3 +20,4 @@ run own-racy-regex-init M 1
 for c in own-control-lazylock control-c1 control-c2 control-c3; do run $c M 0; done
 run agent-14 N 0
 run agent-14 M 0
+run agent-21 N 0
